@@ -92,4 +92,409 @@ theorem zip_map3 {ι α β γ} (l : List ι) (f : ι → α) (g : ι → β) (k 
   | nil => rfl
   | cons a l ih => simp [ih]
 
+/-! ## `extractTokens` / `AppendMeta` / `collect` -/
+
+/-- token table is duplicate free and every stored token index points into it -/
+def TVOk (c : Collector) : Prop :=
+  c.tokensValues.Nodup ∧ ∀ j ∈ c.tokensIndex, j < c.tokensValues.length
+
+theorem getD_append_left {α} (xs ys : List α) (j : Nat) (d : α) (h : j < xs.length) :
+    (xs ++ ys).getD j d = xs.getD j d := by
+  simp [List.getD, List.getElem?_append_left h]
+
+/-- the only fields `extractTokens` touches -/
+def addToks (c : Collector) (extra : List Bytes) (fl js : List Nat) : Collector :=
+  { c with tokensValues := c.tokensValues ++ extra, fieldsLengths := c.fieldsLengths ++ fl, tokensIndex := c.tokensIndex ++ js }
+
+theorem extractTokens_spec (c : Collector) (ts : List MetaToken) (hc : TVOk c) :
+    ∃ extra fl js,
+      extractTokens c ts = addToks c extra fl js ∧
+      js.length = ts.length ∧
+      js.map ((c.tokensValues ++ extra).getD · []) = ts.map MetaToken.bytes ∧
+      TVOk (extractTokens c ts) := by
+  induction ts generalizing c with
+  | nil => exact ⟨[], [], [], by simp [extractTokens, addToks], rfl, rfl, by simpa [extractTokens] using hc⟩
+  | cons t ts ih =>
+    have hstep : ∃ e1 f1 i, extractToken c t = addToks c e1 f1 [i] ∧
+        i < (c.tokensValues ++ e1).length ∧ (c.tokensValues ++ e1).getD i [] = t.bytes ∧ (c.tokensValues ++ e1).Nodup := by
+      unfold extractToken
+      by_cases h : c.tokensValues.idxOf t.bytes < c.tokensValues.length
+      · refine ⟨[], [], c.tokensValues.idxOf t.bytes, by simp [h, addToks], by simpa using h, ?_, by simpa using hc.1⟩
+        simp [List.getD, List.getElem?_eq_getElem h]
+      · refine ⟨[t.bytes], [t.key.length], c.tokensValues.length, by simp [h, addToks], by simp, by simp [List.getD], ?_⟩
+        have hn : t.bytes ∉ c.tokensValues := by
+          intro hm
+          exact h (List.idxOf_lt_length_iff.mpr hm)
+        simpa [List.nodup_append] using ⟨hc.1, fun a ha hb => hn (hb ▸ ha)⟩
+    obtain ⟨e1, f1, i, he, hi, hget, hnd⟩ := hstep
+    have hc1 : TVOk (extractToken c t) := by
+      rw [he]
+      refine ⟨hnd, ?_⟩
+      intro j hj
+      simp only [addToks, List.mem_append, List.mem_singleton] at hj
+      rcases hj with hj | hj
+      · have := hc.2 j hj
+        show j < (c.tokensValues ++ e1).length
+        rw [List.length_append]; omega
+      · subst hj; exact hi
+    obtain ⟨e2, f2, js, he2, hl, hm, hok⟩ := ih (extractToken c t) hc1
+    refine ⟨e1 ++ e2, f1 ++ f2, i :: js, ?_, by simp [hl], ?_, ?_⟩
+    · simp only [extractTokens, List.foldl_cons] at he2 ⊢
+      rw [he2, he]
+      simp [addToks, List.append_assoc]
+    · rw [he] at hm
+      simp only [addToks, List.append_assoc] at hm
+      simp only [List.map_cons, ← List.append_assoc]
+      rw [List.append_assoc, hm]
+      congr 1
+      rw [← List.append_assoc, getD_append_left _ _ _ _ hi, hget]
+    · simpa [extractTokens] using hok
+
+theorem mem_splitBy {α} (ns : List Nat) (xs : List α) (piece : List α) (a : α)
+    (hp : piece ∈ splitBy ns xs) (ha : a ∈ piece) : a ∈ xs := by
+  induction ns generalizing xs with
+  | nil => simp [splitBy] at hp
+  | cons n ns ih =>
+    simp only [splitBy, List.mem_cons] at hp
+    rcases hp with hp | hp
+    · subst hp; exact List.mem_of_mem_take ha
+    · exact List.mem_of_mem_drop (ih _ hp)
+
+/-- resolve the token indexes of one document of the view -/
+def res (tv : List Bytes) (d : ID × DocPos × List Nat) : ID × DocPos × List Bytes :=
+  (d.1, d.2.1, d.2.2.map fun j => tv.getD j [])
+
+theorem rview_eq (c : Collector) : rview c = (view c).map (res c.tokensValues) := rfl
+
+theorem mem_view_idx (c : Collector) (d : ID × DocPos × List Nat) (hd : d ∈ view c) (j : Nat) (hj : j ∈ d.2.2) :
+    j ∈ c.tokensIndex := by
+  unfold view at hd
+  have h1 := (List.of_mem_zip hd).2
+  have h2 := (List.of_mem_zip h1).2
+  exact mem_splitBy _ _ _ _ h2 hj
+
+def CInv (c : Collector) : Prop := WF c ∧ TVOk c
+
+theorem cinv_init (b : Nat) : CInv (init b) := by
+  simp [CInv, WF, TVOk, init]
+
+theorem appendMeta_spec (c : Collector) (m : Meta) (h : CInv c) :
+    CInv (appendMeta c m) ∧
+    rview (appendMeta c m) = rview c ++ [(m.id, posOf c m, m.tokens.map MetaToken.bytes)] ∧
+    (appendMeta c m).ids = c.ids ++ [m.id] ∧
+    (appendMeta c m).positions = c.positions ++ [posOf c m] ∧
+    (appendMeta c m).blockIndex = c.blockIndex ∧
+    (appendMeta c m).nextDocOffset = (if m.size = 0 then c.nextDocOffset else c.nextDocOffset + m.size + 4) ∧
+    (appendMeta c m).docsCounter = c.docsCounter + 1 ∧
+    (appendMeta c m).sizeCounter = c.sizeCounter + m.size ∧
+    (appendMeta c m).minMID = (if m.id.1 < c.minMID then m.id.1 else c.minMID) ∧
+    (appendMeta c m).maxMID = (if m.id.1 > c.maxMID then m.id.1 else c.maxMID) := by
+  obtain ⟨⟨hw1, hw2, hw3⟩, hok⟩ := h
+  unfold appendMeta
+  have hok1 : TVOk (appendMetaPre c m) := hok
+  obtain ⟨extra, fl, js, he, hl, hm, hok2⟩ := extractTokens_spec (appendMetaPre c m) m.tokens hok1
+  rw [he] at hok2 ⊢
+  simp only [addToks, appendMetaPre] at hok2 hm ⊢
+  refine ⟨⟨⟨by simp [hw1], by simp [hw2], by simp [hw3, hl]⟩, hok2⟩, ?_, by trivial, by trivial, by trivial, by trivial, by trivial, by trivial, by trivial, by trivial⟩
+  simp only [rview, view]
+  rw [← hl, splitBy_append _ _ _ hw3]
+  rw [List.zip_append (by simp [splitBy_length, hw1, hw2]), List.zip_append (by simp [splitBy_length, hw1, hw2])]
+  simp only [List.map_append, List.zip_cons_cons, List.zip_nil_right, List.map_cons, List.map_nil, posOf]
+  congr 1
+  · apply List.map_congr_left
+    intro d hd
+    have hidx := mem_view_idx c d hd
+    congr 2
+    apply List.map_congr_left
+    intro j hj
+    exact getD_append_left _ _ _ _ (hok.2 j (hidx j hj))
+  · simpa using hm
+
+theorem foldl_appendMeta_spec (b : Nat) (ms : List Meta) (c : Collector) (h : CInv c) (hb : c.blockIndex = b) :
+    CInv (ms.foldl appendMeta c) ∧
+    rview (ms.foldl appendMeta c) = rview c ++ docsFrom b ms c.nextDocOffset (c.positions.getLastD (0, 0)) ∧
+    (ms.foldl appendMeta c).ids = c.ids ++ ms.map (·.id) ∧
+    (ms.foldl appendMeta c).docsCounter = c.docsCounter + ms.length ∧
+    (ms.foldl appendMeta c).sizeCounter = c.sizeCounter + (ms.map (·.size)).sum ∧
+    (ms.foldl appendMeta c).minMID = ms.foldl (fun a m => if m.id.1 < a then m.id.1 else a) c.minMID ∧
+    (ms.foldl appendMeta c).maxMID = ms.foldl (fun a m => if m.id.1 > a then m.id.1 else a) c.maxMID := by
+  induction ms generalizing c with
+  | nil => simp [docsFrom, h]
+  | cons m ms ih =>
+    obtain ⟨h1, h2, h3, h4, h5, h6, h7, h8, h9, h10⟩ := appendMeta_spec c m h
+    obtain ⟨i1, i2, i3, i4, i5, i6, i7⟩ := ih (appendMeta c m) h1 (by rw [h5, hb])
+    simp only [List.foldl_cons]
+    refine ⟨i1, ?_, ?_, ?_, ?_, ?_, ?_⟩
+    · rw [i2, h2, h4, h6, List.append_assoc]
+      congr 1
+      simp only [docsFrom, posOf, hb, List.getLastD_concat, List.singleton_append]
+    · rw [i3, h3]; simp
+    · rw [i4, h7]; simp; omega
+    · rw [i5, h8]; simp; omega
+    · rw [i6, h9]
+    · rw [i7, h10]
+
+/-- **`collect` builds the bulk's documents**: after parsing a bulk the collector's per-document view (ids,
+positions, token bytes through `TokensValues`) is exactly the bulk, slices aligned, token table duplicate free -/
+theorem collect_spec (b : Nat) (ms : List Meta) :
+    CInv (collect b ms) ∧ rview (collect b ms) = docsOf b ms ∧ (collect b ms).ids = ms.map (·.id) ∧
+    (collect b ms).docsCounter = ms.length ∧ (collect b ms).sizeCounter = (ms.map (·.size)).sum := by
+  have := foldl_appendMeta_spec b ms (init b) (cinv_init b) rfl
+  obtain ⟨h1, h2, h3, h4, h5, -, -⟩ := this
+  refine ⟨h1, ?_, ?_, ?_, ?_⟩
+  · simpa [collect, init, rview, view, docsOf, splitBy] using h2
+  · simpa [collect, init] using h3
+  · simpa [collect, init] using h4
+  · simpa [collect, init] using h5
+
+/-! ## `Filter` -/
+
+theorem sum_take_add_le (ns : List Nat) (i : Nat) (h : i < ns.length) : (ns.take i).sum + ns[i]! ≤ ns.sum := by
+  induction ns generalizing i with
+  | nil => simp at h
+  | cons n ns ih =>
+    cases i with
+    | zero => simp
+    | succ i =>
+      have := ih i (by simpa using h)
+      simp only [List.take_succ_cons, List.sum_cons, List.getElem!_cons_succ]
+      omega
+
+theorem view_length (c : Collector) (h : WF c) : (view c).length = c.ids.length := by
+  simp [view, splitBy_length, h.1, h.2.1]
+
+/-- the token-index slice `Filter` copies for document `i` -/
+def slice (c : Collector) (i : Nat) : List Nat :=
+  (c.tokensIndex.drop (tokensOffsets c.tokensInDocs 0)[i]!).take c.tokensInDocs[i]!
+
+theorem slice_length (c : Collector) (h : WF c) (i : Nat) (hi : i < c.ids.length) :
+    (slice c i).length = c.tokensInDocs[i]! := by
+  have hi' : i < c.tokensInDocs.length := by rw [h.2.1]; exact hi
+  have := sum_take_add_le c.tokensInDocs i hi'
+  simp only [slice, tokensOffsets_getElem _ _ _ hi', List.length_take, List.length_drop]
+  rw [← h.2.2]
+  omega
+
+theorem view_getElem (c : Collector) (h : WF c) (i : Nat) (hi : i < c.ids.length) :
+    (view c)[i]! = (c.ids[i]!, c.positions[i]!, slice c i) := by
+  have hi' : i < c.tokensInDocs.length := by rw [h.2.1]; exact hi
+  have hp : i < c.positions.length := by rw [h.1]; exact hi
+  have hv : i < (view c).length := by rw [view_length c h]; exact hi
+  have hs : i < (splitBy c.tokensInDocs c.tokensIndex).length := by rw [splitBy_length]; exact hi'
+  rw [getElem!_pos (view c) i hv]
+  simp only [view, List.getElem_zip]
+  rw [← getElem!_pos c.ids i hi, ← getElem!_pos c.positions i hp, ← getElem!_pos _ i hs]
+  rw [splitBy_getElem _ _ _ hi']
+  simp [slice, tokensOffsets_getElem _ _ _ hi']
+
+/-- **`Filter` is a projection**: the per-document view after `Filter(appended)` is the old view restricted to the
+documents whose id is in `appended`; ids, positions, token counts and the rebuilt token indexes stay aligned -/
+theorem filter_view (c : Collector) (app : List ID) (h : WF c) :
+    view (filter c app) = (view c).filter (fun d => decide (d.1 ∈ app)) ∧ WF (filter c app) ∧
+    (filter c app).tokensValues = c.tokensValues := by
+  have hlen := view_length c h
+  -- the index list, expressed over the view
+  have hidx : indexesOfIntercept c.ids app
+      = (List.range (view c).length).filter (fun i => decide (((view c)[i]!).1 ∈ app)) := by
+    unfold indexesOfIntercept
+    rw [hlen]
+    apply List.filter_congr
+    intro i hi
+    rw [view_getElem c h i (by simpa using hi)]
+  have hmem : ∀ i ∈ indexesOfIntercept c.ids app, i < c.ids.length := by
+    intro i hi
+    unfold indexesOfIntercept at hi
+    simpa using (List.mem_filter.mp hi).1
+  have hview : view (filter c app) = (indexesOfIntercept c.ids app).map ((view c)[·]!) := by
+    unfold view filter
+    simp only []
+    have e1 : (indexesOfIntercept c.ids app).map (c.tokensInDocs[·]!)
+        = (indexesOfIntercept c.ids app).map (fun i => (slice c i).length) := by
+      apply List.map_congr_left
+      intro i hi
+      rw [slice_length c h i (hmem i hi)]
+    have e2 : ((indexesOfIntercept c.ids app).flatMap fun i =>
+        (c.tokensIndex.drop (tokensOffsets c.tokensInDocs 0)[i]!).take c.tokensInDocs[i]!)
+        = (indexesOfIntercept c.ids app).flatMap (slice c) := rfl
+    rw [e1, e2, splitBy_flatMap, zip_map3]
+    apply List.map_congr_left
+    intro i hi
+    exact (view_getElem c h i (hmem i hi)).symm
+  refine ⟨?_, ?_, rfl⟩
+  · rw [hview, hidx]
+    exact filter_range_map (view c) (fun d => decide (d.1 ∈ app))
+  · unfold WF filter
+    simp only [List.length_map, true_and]
+    have e1 : (indexesOfIntercept c.ids app).map (c.tokensInDocs[·]!)
+        = (indexesOfIntercept c.ids app).map (fun i => (slice c i).length) := by
+      apply List.map_congr_left
+      intro i hi
+      rw [slice_length c h i (hmem i hi)]
+    rw [e1]
+    show _ = ((indexesOfIntercept c.ids app).flatMap (slice c)).length
+    rw [List.length_flatMap]
+
+theorem view_ids (c : Collector) (h : WF c) : (view c).map (·.1) = c.ids := by
+  unfold view
+  exact List.map_fst_zip (by simp [splitBy_length, h.1, h.2.1])
+
+theorem view_positions (c : Collector) (h : WF c) : (view c).map (·.2.1) = c.positions := by
+  unfold view
+  have : (c.ids.zip (c.positions.zip (splitBy c.tokensInDocs c.tokensIndex))).map (·.2.1)
+      = ((c.ids.zip (c.positions.zip (splitBy c.tokensInDocs c.tokensIndex))).map Prod.snd).map Prod.fst := by simp
+  rw [this, List.map_snd_zip (by simp [splitBy_length, h.1, h.2.1]), List.map_fst_zip (by simp [splitBy_length, h.1, h.2.1])]
+
+theorem view_pieces (c : Collector) (h : WF c) : (view c).map (·.2.2) = splitBy c.tokensInDocs c.tokensIndex := by
+  unfold view
+  have : (c.ids.zip (c.positions.zip (splitBy c.tokensInDocs c.tokensIndex))).map (·.2.2)
+      = ((c.ids.zip (c.positions.zip (splitBy c.tokensInDocs c.tokensIndex))).map Prod.snd).map Prod.snd := by simp
+  rw [this, List.map_snd_zip (by simp [splitBy_length, h.1, h.2.1]), List.map_snd_zip (by simp [splitBy_length, h.1, h.2.1])]
+
+/-! ## `GroupLIDsByToken` -/
+
+theorem groupLoop_getElem? (g : List (List Nat)) (ps : List (Nat × Nat)) (j : Nat) :
+    (groupLoop g ps)[j]? = g[j]?.map (· ++ (ps.filter (fun p => p.1 == j)).map (·.2)) := by
+  induction ps generalizing g with
+  | nil => simp [groupLoop]
+  | cons p ps ih =>
+    have := ih (g.modify p.1 (· ++ [p.2]))
+    simp only [groupLoop, List.foldl_cons] at this ⊢
+    rw [this, List.getElem?_modify]
+    by_cases hp : p.1 = j
+    · cases hg : g[j]? <;> simp [hp]
+    · have : (p.1 == j) = false := by simpa using hp
+      cases hg : g[j]? <;> simp [hp, this]
+
+theorem zip_replicate_right {α β} (xs : List α) (b : β) : xs.zip (List.replicate xs.length b) = xs.map (·, b) := by
+  induction xs with
+  | nil => rfl
+  | cons x xs ih => simp [List.replicate_succ, ih]
+
+theorem zip_restore (tid : List Nat) (ti lids : List Nat) (hs : tid.sum = ti.length) (hl : tid.length = lids.length) :
+    ti.zip (restoreLIDsOrder tid lids)
+      = ((splitBy tid ti).zip lids).flatMap (fun pl => pl.1.map (·, pl.2)) := by
+  induction tid generalizing ti lids with
+  | nil => simp [restoreLIDsOrder, splitBy]
+  | cons n tid ih =>
+    cases lids with
+    | nil => simp at hl
+    | cons l ls =>
+      have hn : n ≤ ti.length := by simp at hs; omega
+      have hs' : tid.sum = (ti.drop n).length := by simp at hs ⊢; omega
+      have ih' := ih (ti.drop n) ls hs' (by simpa using hl)
+      simp only [restoreLIDsOrder, List.zipWith_cons_cons, List.flatten_cons, splitBy, List.zip_cons_cons,
+        List.flatMap_cons] at ih' ⊢
+      have hlen : (ti.take n).length = (List.replicate n l).length := by simp [hn]
+      conv => lhs; rw [← List.take_append_drop n ti]
+      rw [List.zip_append hlen]
+      rw [ih']
+      congr 1
+      have : List.replicate n l = List.replicate (ti.take n).length l := by simp [hn]
+      rw [this, zip_replicate_right]
+
+theorem filter_map_pair (piece : List Nat) (lid j : Nat) :
+    ((piece.map (·, lid)).filter (fun p => p.1 == j)).map (·.2) = List.replicate (piece.count j) lid := by
+  induction piece with
+  | nil => rfl
+  | cons a piece ih =>
+    by_cases h : a = j
+    · subst h; simp [List.replicate_succ, ih]
+    · have h' : (a == j) = false := by simpa using h
+      simp [List.count_cons, h', ih]
+
+/-- the LIDs `GroupLIDsByToken` hands to token index `j`: the LID of every document once per occurrence of `j` in it -/
+def postingsIdx (c : Collector) (lids : List Nat) (j : Nat) : List Nat :=
+  ((view c).zip lids).flatMap fun dl => List.replicate (dl.1.2.2.count j) dl.2
+
+theorem group_spec_idx (c : Collector) (lids : List Nat) (h : WF c) (hl : lids.length = c.ids.length) (j : Nat)
+    (hj : j < c.tokensValues.length) :
+    (groupLIDsByToken c lids)[j]? = some (postingsIdx c lids j) := by
+  unfold groupLIDsByToken
+  rw [groupLoop_getElem?, zip_restore _ _ _ h.2.2 (by rw [h.2.1, hl])]
+  simp only [List.getElem?_replicate, hj, if_true, Option.map_some, List.nil_append, Option.some.injEq]
+  rw [← view_pieces c h]
+  unfold postingsIdx
+  simp only [List.filter_flatMap, List.map_flatMap, filter_map_pair]
+  clear hl
+  generalize view c = V
+  induction V generalizing lids with
+  | nil => simp
+  | cons d V ih =>
+    cases lids with
+    | nil => simp
+    | cons l ls =>
+      simp only [List.map_cons, List.zip_cons_cons, List.flatMap_cons]
+      rw [ih ls]
+
+theorem flatMap_congr' {α β} {l : List α} {f g : α → List β} (h : ∀ a ∈ l, f a = g a) : l.flatMap f = l.flatMap g := by
+  induction l with
+  | nil => rfl
+  | cons a l ih =>
+    simp only [List.flatMap_cons]
+    rw [h a (by simp), ih (fun b hb => h b (List.mem_cons_of_mem _ hb))]
+
+theorem count_map_getD (tv : List Bytes) (hnd : tv.Nodup) (xs : List Nat) (hx : ∀ k ∈ xs, k < tv.length) (j : Nat)
+    (hj : j < tv.length) : (xs.map (tv.getD · [])).count tv[j] = xs.count j := by
+  induction xs with
+  | nil => rfl
+  | cons k xs ih =>
+    have hk : k < tv.length := hx k (by simp)
+    have ih' := ih (fun k hk => hx k (List.mem_cons_of_mem _ hk))
+    have e : tv.getD k [] = tv[k] := by simp [List.getD, List.getElem?_eq_getElem hk]
+    simp only [List.map_cons, List.count_cons, ih', e]
+    congr 1
+    have := List.getElem_inj (h₀ := hk) (h₁ := hj) hnd
+    by_cases hkj : k = j
+    · subst hkj; simp
+    · have h1 : ¬ tv[k] = tv[j] := fun hh => hkj (this.mp hh)
+      simp [hkj, h1]
+
+/-- the LIDs a bulk contributes to token `t`: the LID of every document once per occurrence of `t` in it -/
+def postings (docs : List (ID × DocPos × List Bytes)) (lids : List Nat) (t : Bytes) : List Nat :=
+  (docs.zip lids).flatMap fun dl => List.replicate (dl.1.2.2.count t) dl.2
+
+theorem postingsIdx_eq (c : Collector) (h : CInv c) (lids : List Nat) (j : Nat) (hj : j < c.tokensValues.length) :
+    postingsIdx c lids j = postings (rview c) lids c.tokensValues[j] := by
+  unfold postingsIdx postings
+  rw [rview_eq, List.zip_map_left, List.flatMap_map]
+  apply flatMap_congr'
+  intro dl hdl
+  have hd : dl.1 ∈ view c := (List.of_mem_zip hdl).1
+  simp only [Prod.map, id, res]
+  rw [count_map_getD c.tokensValues h.2.1 dl.1.2.2 (fun k hk => h.2.2 k (mem_view_idx c dl.1 hd k hk)) j hj]
+
+/-- **`GroupLIDsByToken`**: group `j` is exactly the postings of token `TokensValues[j]` in the collected documents -/
+theorem group_spec (c : Collector) (lids : List Nat) (h : CInv c) (hl : lids.length = c.ids.length) (j : Nat)
+    (hj : j < c.tokensValues.length) :
+    (groupLIDsByToken c lids)[j]? = some (postings (rview c) lids c.tokensValues[j]) := by
+  rw [group_spec_idx c lids h.1 hl j hj, postingsIdx_eq c h lids j hj]
+
+theorem groupLIDsByToken_length (c : Collector) (lids : List Nat) :
+    (groupLIDsByToken c lids).length = c.tokensValues.length := by
+  unfold groupLIDsByToken groupLoop
+  generalize c.tokensIndex.zip (restoreLIDsOrder c.tokensInDocs lids) = ps
+  have : ∀ g : List (List Nat), (ps.foldl (fun g p => g.modify p.1 (· ++ [p.2])) g).length = g.length := by
+    induction ps with
+    | nil => simp
+    | cons p ps ih => intro g; simp [ih]
+  simp [this]
+
+/-- every token of a collected document is in the token table -/
+theorem rview_tokens_mem (c : Collector) (h : CInv c) (d : ID × DocPos × List Bytes) (hd : d ∈ rview c) (t : Bytes)
+    (ht : t ∈ d.2.2) : t ∈ c.tokensValues := by
+  rw [rview_eq] at hd
+  obtain ⟨d0, hd0, rfl⟩ := List.mem_map.mp hd
+  simp only [res, List.mem_map] at ht
+  obtain ⟨k, hk, rfl⟩ := ht
+  have hk' := h.2.2 k (mem_view_idx c d0 hd0 k hk)
+  simp [List.getD, List.getElem?_eq_getElem hk']
+
+theorem postings_not_mem (docs : List (ID × DocPos × List Bytes)) (lids : List Nat) (t : Bytes)
+    (h : ∀ d ∈ docs, t ∉ d.2.2) : postings docs lids t = [] := by
+  unfold postings
+  simp only [List.flatMap_eq_nil_iff]
+  intro dl hdl
+  have := h dl.1 (List.of_mem_zip hdl).1
+  simp [List.count_eq_zero_of_not_mem this]
+
 end SV.Collector
